@@ -234,7 +234,8 @@ def model_check(v, tier):
         v.add_tlc('Replica N=3 simulate', r)
 
 
-def judge(v, traces, scs):
+def judge(v, traces, scs, labels=None):
+    labels = LABELS if labels is None else labels
     sc = vlib.scratch()
     path = os.path.join(sc, 'replica_traces.json')
     with open(path, 'w') as f:
@@ -252,9 +253,9 @@ def judge(v, traces, scs):
     seen_known = set()
     seen_viol = set()
     for f in sorted(vlib.tlc_prints(r.stdout, 'V '), key=lambda x: (x['t'], x['s'])):
-        mine = sorted(x for x in f['f'] if x in LABELS)
+        mine = sorted(x for x in f['f'] if x in labels)
         scn = scs[f['t']]
-        if 'KNOWN.F4' in f['f'] and not mine:
+        if 'KNOWN.F4' in f['f'] and not mine and labels is LABELS:
             if 'F4' in listed:
                 if f['t'] not in seen_known:
                     seen_known.add(f['t'])
